@@ -112,11 +112,22 @@ package core
 //@ func (*Table).interpreterMatch
 //@   assumed
 //@   maypanic
+//@   requires t != nil
 //@   ensures result == matchSpec(t.Name, input.Expression, input.ExpressionType, dom(input.Item), vals(input.Item), dom(input.Attributes), vals(input.Attributes), dom(input.Aliases), vals(input.Aliases))
+// C20 (checked against the body): with the native interpreter on, a matcher registered for exactly this table, kind and
+// expression text (up to white space) decides; otherwise the built-in interpreter does
+//@   bodyensures[C20] old(t.UseNativeInterpreter && HasMatcher(t.NativeInterpreter, input.TableName, input.Expression, input.ExpressionType)) ==>
+//@                result == dynresult(old(MatcherOf(t.NativeInterpreter, input.TableName, input.Expression, input.ExpressionType)), old(input.Item), old(input.Attributes))
+//@   bodyensures[C20] !old(t.UseNativeInterpreter && HasMatcher(t.NativeInterpreter, input.TableName, input.Expression, input.ExpressionType)) ==>
+//@                result == old(langVerdict(input.TableName, input.Expression, input.ExpressionType, dom(input.Item), vals(input.Item), dom(input.Attributes), vals(input.Attributes), dom(input.Aliases), vals(input.Aliases)))
 
 //@ func (*Table).interpreterUpdate
 //@   assumed
-//@   requires input.Item != nil
+//@   requires input.Item != nil && t != nil
+// C20 (checked against the body): with the native interpreter on, only an updater registered for exactly this table and
+// expression text runs; without one the update fails with an unsupported-feature error and nothing is touched (no fallback)
+//@   bodyensures[C20] old(t.UseNativeInterpreter) ==> (result == nil) == old(NKey(input.TableName, input.Expression) in t.NativeInterpreter.updateExpressions)
+//@   bodyensures[C20] old(t.UseNativeInterpreter) && result != nil ==> errIs(result, interpreter.ErrUnsupportedFeature) && !dyncalls() && unchangedAll()
 //@   modifies input.Item[*]
 //@   ensures result != nil ==> content(input.Item) == old(content(input.Item))
 //@   ensures !typeis(result, "*mtypes.ConditionalCheckFailedException")
